@@ -832,8 +832,9 @@ class Node:
     def _receive_message(self, conn: PeerConnection, msg: _AnyMessageType):
         if hasattr(msg, "origin_host") and msg.header.is_request:
             # Record who originally sent a request, as this information is lost
-            # by the time an answer will go out
-            message_id = (f"{msg.header.hop_by_hop_identifier}:"
+            # by the time an answer will go out. Identifiers are chosen by the
+            # peers independently, so the connection is part of the key.
+            message_id = (f"{conn.ident}:{msg.header.hop_by_hop_identifier}:"
                           f"{msg.header.end_to_end_identifier}")
             self._origin_waiting_answer[message_id] = (
                 msg.origin_host, time.time())
@@ -901,7 +902,7 @@ class Node:
             if not msg.header.is_request:
                 # never answer an answer
                 return
-            message_id = (f"{msg.header.hop_by_hop_identifier}:"
+            message_id = (f"{conn.ident}:{msg.header.hop_by_hop_identifier}:"
                           f"{msg.header.end_to_end_identifier}")
             if (hasattr(msg, "origin_host") and
                     message_id not in self._origin_waiting_answer):
@@ -1035,7 +1036,7 @@ class Node:
 
     def _record_answer(self, conn: PeerConnection, message: Message):
         """Notes the end-to-end identifier of an answer, for retransmit checks."""
-        message_id = (f"{message.header.hop_by_hop_identifier}:"
+        message_id = (f"{conn.ident}:{message.header.hop_by_hop_identifier}:"
                       f"{message.header.end_to_end_identifier}")
         if message_id not in self._origin_waiting_answer:
             return
